@@ -4,8 +4,8 @@ import (
 	"encoding/json"
 	"fmt"
 	"os"
-	"strings"
 	"runtime/pprof"
+	"strings"
 	"time"
 
 	pb "go.etcd.io/etcd/raft/v3/raftpb"
